@@ -199,4 +199,27 @@ theorem versioned_package_subpackage_counterexample :
     address_versioned_package ["acme".toList, "dep".toList, "v1".toList] = ["acme".toList, "dep_v1".toList] := by
   decide
 
+/-! ### the text of the import statement (`Import.__str__`, translated) -/
+
+/-- **the emitted import line is `[from <package> ]import <module>[ as <alias>][  # type: ignore]`** — so, by Python's
+grammar, the name it binds is the alias when there is one and the module otherwise: exactly `bound` (and by
+`import_binds_str_head` the head of every reference to a type of that module) -/
+theorem import_str_shape (alias module : Str) (package : List Str) :
+    ∃ pre post, import_str alias module package =
+        pre ++ "import ".toList ++ module ++ (if truthy alias then " as ".toList ++ alias else []) ++ post ∧
+      (pre = [] ∨ pre = "from ".toList ++ join ['.'] package ++ [' ']) ∧
+      (post = [] ∨ post = "  # type: ignore".toList) := by
+  unfold import_str
+  by_cases hp : truthy package = true <;> by_cases ha : truthy alias = true <;>
+    by_cases hi : (endswith module ['_', 'p', 'b', '2'] || strIn ['a', 'p', 'i', '_', 'c', 'o', 'r', 'e'] package) = true
+  all_goals simp only [hp, ha, hi, if_true, if_false, Bool.false_eq_true]
+  · exact ⟨"from ".toList ++ join ['.'] package ++ [' '], "  # type: ignore".toList, by simp [List.append_assoc], Or.inr rfl, Or.inr rfl⟩
+  · exact ⟨"from ".toList ++ join ['.'] package ++ [' '], [], by simp [List.append_assoc], Or.inr rfl, Or.inl rfl⟩
+  · exact ⟨"from ".toList ++ join ['.'] package ++ [' '], "  # type: ignore".toList, by simp [List.append_assoc], Or.inr rfl, Or.inr rfl⟩
+  · exact ⟨"from ".toList ++ join ['.'] package ++ [' '], [], by simp [List.append_assoc], Or.inr rfl, Or.inl rfl⟩
+  · exact ⟨[], "  # type: ignore".toList, by simp [List.append_assoc], Or.inl rfl, Or.inr rfl⟩
+  · exact ⟨[], [], by simp [List.append_assoc], Or.inl rfl, Or.inl rfl⟩
+  · exact ⟨[], "  # type: ignore".toList, by simp [List.append_assoc], Or.inl rfl, Or.inr rfl⟩
+  · exact ⟨[], [], by simp [List.append_assoc], Or.inl rfl, Or.inl rfl⟩
+
 end GapicModel.Lemmas.AddressT
